@@ -56,17 +56,18 @@ Proof.
     + exfalso. apply H. reflexivity.
 Qed.
 
-Lemma lambda_map_ext c param body items :
-  lambda_map ev1 c param body items <> inl EFuel ->
-  lambda_map ev2 c param body items = lambda_map ev1 c param body items.
+Lemma lambda_map_ext stop c param iparam body items : forall i,
+  lambda_map ev1 stop c param iparam body items i <> inl EFuel ->
+  lambda_map ev2 stop c param iparam body items i = lambda_map ev1 stop c param iparam body items i.
 Proof.
-  induction items as [|it items IH]; simpl; intro H; [reflexivity|].
+  induction items as [|it items IH]; intros i; cbn [lambda_map]; intro H; [reflexivity|].
   set (c' := set_scopes c _) in *.
-  destruct (ev1 c' body) eqn:E.
+  destruct (ev1 c' body) as [rv| | |] eqn:E.
   - rewrite (ext_eq _ _ _ E) by discriminate.
-    destruct (lambda_map ev1 c param body items) as [r|rs] eqn:El.
-    + rewrite IH by (intro K; apply H; rewrite K; reflexivity). reflexivity.
-    + rewrite IH by discriminate. reflexivity.
+    destruct (stop && lam_true rv); [reflexivity|].
+    destruct (lambda_map ev1 stop c param iparam body items (i + 1)%Z) as [r|rs] eqn:El.
+    + rewrite IH by (rewrite El; intro K; apply H; rewrite K; reflexivity). rewrite El. reflexivity.
+    + rewrite IH by (rewrite El; discriminate). rewrite El. reflexivity.
   - rewrite (ext_eq _ _ _ E) by discriminate. reflexivity.
   - rewrite (ext_eq _ _ _ E) by discriminate. reflexivity.
   - exfalso. apply H. reflexivity.
